@@ -149,6 +149,19 @@ func (c *Ctl) counts() (int, int) {
 	return c.Subs, c.Torn
 }
 
+// DestOf exposes the destination and context of the k-th subscription (drivers outside this package).
+type DestOf struct {
+	D   ro.Observer[any]
+	Ctx context.Context
+}
+
+func (c *Ctl) Dest(k int) *DestOf {
+	if cs := c.nth(k); cs != nil {
+		return &DestOf{D: cs.dest, Ctx: cs.subCtx}
+	}
+	return nil
+}
+
 func (c *Ctl) nth(k int) *ctlSub {
 	c.mu.Lock()
 	defer c.mu.Unlock()
